@@ -170,6 +170,7 @@ type Session struct {
 	extentLimit uint64 // C14: no write beyond this after a shrink (0 = unchecked)
 	LastCommit string // result of the last Commit
 	FaultKind string // kind of I/O call a fault plan targets (fault check)
+	IOFault bool // set by fault plans when an injected fault hit
 	finalSyncFailAt int // log length when a commit last failed only in its final sync
 }
 
@@ -646,6 +647,11 @@ func (s *Session) Load(id uint64) string {
 
 // Read reads a page inside the running write transaction and compares with the spec (C03).
 func (s *Session) Read(id uint64) string {
+	if c, ok := s.Committed[id]; ok && c.ID == ^uint64(0) {
+		if _, own := s.Overlay[id]; !own && !s.Freed[id] {
+			return "skipped" // allocated by an earlier transaction but never written: no defined content
+		}
+	}
 	p, res := s.page(id)
 	if res != "ok" {
 		return res
@@ -795,6 +801,7 @@ func (s *Session) applyCommit() {
 }
 
 func (s *Session) endTx() {
+	s.IOFault = false
 	s.Tx = nil
 	s.Overlay, s.Freed, s.Alloced, s.Pages, s.Loaded, s.Flushed = nil, nil, nil, nil, nil, nil
 }
@@ -809,7 +816,11 @@ func (s *Session) Commit() string {
 	s.Disk.Mark(fmt.Sprintf("commit-end %d %s", n, res))
 	rec := s.drainHook()
 	s.noteFlushMarks(rec)
-	s.emit("commit [%s] => %s", rec, res)
+	if s.IOFault && res != "ok" {
+		s.emit("commit [%s] => %s !io", rec, res) // failed because of an injected I/O fault
+	} else {
+		s.emit("commit [%s] => %s", rec, res)
+	}
 	s.LastCommit = res
 	if res == "ok" {
 		s.applyCommit()
